@@ -145,6 +145,46 @@ func checkC11(e *Engine, r *Report) {
 		}
 	}
 
+	// ---- rule 2b: Synchronize places containers afresh -----------------------------------------
+	// The topology-aware allocator treats a pool hint as binding (no fallback): a hint taken from the stale,
+	// about-to-be-released state can make a running container end up without any allocation.
+	if ts := r.Anchor(pkgTA, "policy.Sync"); ts != nil {
+		allocPool := e.Fn(pkgTA, "policy.allocatePool")
+		allocRes := e.Fn(pkgTA, "policy.allocateResources")
+		pub := e.Fn(pkgTA, "policy.AllocateResources")
+		n := 0
+		AllInstrs(ts, func(in ssa.Instruction) {
+			ci, ok := in.(ssa.CallInstruction)
+			if !ok || allocPool == nil || !e.CallReaches(in, fset(allocPool), 4) {
+				return
+			}
+			n++
+			okHint, why := false, ""
+			switch {
+			case e.IsCallTo(in, fset(pub)):
+				// the public entry point: its own call of allocateResources carries the empty hint
+				for _, c := range e.callsTo(pub, allocRes) {
+					if s, isS := constString(callArgs(c)[2]); isS && s == "" {
+						okHint = true
+					}
+				}
+				why = "AllocateResources does not pass the empty hint"
+			case e.IsCallTo(in, fset(allocRes)), e.IsCallTo(in, fset(allocPool)):
+				if s, isS := constString(callArgs(ci)[2]); isS && s == "" {
+					okHint = true
+				}
+				why = "a non-empty pool hint is passed"
+			default:
+				why = "allocation through an unrecognised path"
+			}
+			if okHint {
+				why = ""
+			}
+			r.Check("R1:sync-allocates-without-binding-hint", "R1 Synchronize feeds policy.Sync", "the topology-aware Sync re-allocates every container on its add list without a (binding) pool hint, so a container the runtime reports as running cannot be refused because of where it used to be", e.InstrPos(in), ts, okHint, why, true)
+		})
+		r.MinInstances("allocations in topology-aware Sync", n, 1)
+	}
+
 	// ---- rule 3 -------------------------------------------------------------------
 	stale, _ := e.TypesPkg(pkgCA).Scope().Lookup("ContainerStateStale").(*types.Const)
 	if rc := r.Anchor(pkgCA, "cache.RefreshContainers"); rc != nil {
